@@ -456,6 +456,7 @@ func runTCP(r *hk.Run, rng *hk.Rand) {
 	}
 	runTCPLimits(r)
 	runSplice(r, rng)
+	runExpect(r, rng)
 }
 
 var _ = bytes.Equal
